@@ -54,8 +54,12 @@ func sshKnownHostsKeyAttributes(hosts []string, pub ssh.PublicKey, comment strin
 }
 
 func parseKdfOptions(opts []byte) ([]byte, uint32, error) {
+	// salt length (4 bytes), salt, rounds (4 bytes)
+	if len(opts) < 8 {
+		return nil, 0, fmt.Errorf("invalid KDF options")
+	}
 	saltLen := binary.BigEndian.Uint32(opts[:4])
-	if 4+saltLen+4 != uint32(len(opts)) {
+	if uint64(saltLen)+8 != uint64(len(opts)) {
 		return nil, 0, fmt.Errorf("invalid KDF options")
 	}
 	rounds := binary.BigEndian.Uint32(opts[4+saltLen:])
